@@ -18,7 +18,7 @@ def make_layout(rng, nens=None, mode=None):
     nens = nens or rng.choice([1, 1, 2, 3])
     layout = Layout()
     layout.mode = mode or 'free'
-    for e in ['A', 'B', 'C'][:nens]:
+    for e in rng.choice([['A', 'B', 'C'], ['A', 'B', 'C'], ['B450', 'sB450', 'B45'], ['A', 'A1', 'xA'], ['N2', 'N20', 'N200']])[:nens]:
         nrep = rng.choice([1, 1, 2, 3])
         names = ['%s|r%d' % (e, i + 1) for i in range(nrep)]
         layout[e] = {n: list(gen_idl(rng, rng.randint(12, 40), rng.choice(['contig', 'strided', 'irregular', 'gapped']))) for n in names}
